@@ -39,6 +39,7 @@ Accepts(ev) ==
                                                   /\ ev.cdata0 = ev.vals[1] /\ ev.data0 = ev.vals[1] /\ ev.cget3 = ev.vals[4]
                                                   /\ ev.maxsize = Len(ev.vals) /\ ev.empty = 0)
          /\ G("C18", "ArrayComparison", ev.eq_same = 1 /\ ev.eq_diff = 0)
+         /\ G("C18", "ArraySwapExchangesContents", ev.swap_ok = 1)
          /\ G("C18", "ArrayConcatAndGet", ev.cat = ev.catexp /\ ev.get0 = ev.vals[1] /\ ev.get3 = ev.vals[4])
     [] ev.e = "Sort" ->
          /\ G("C18", "SortLeavesAPermutation", IsPerm(ev["in"], ev.out))
